@@ -100,3 +100,26 @@ contract(
     ensures=[f"result == {_COND}", "self.written == result", "(not result) or self.w_type == 0"],
     options={"callee_contracts": _RT_CC},
 )
+
+
+# ---- import_refs: what is deleted afterwards is exactly "pruned names that were not imported" plus "names imported as None" ---
+# loop invariant over the import loop: no name that was imported with a value is left in the deletion set, every name imported
+# as None is in it (names are the keys of `other`, iterated through .items(): untracked pairs, ghost projections)
+class_spec(file="<abstract>", cls="RefsAbs16", fields={})
+contract(prop=["C16"], file="<abstract>", func="RefsAbs16.subkeys@abs", trusted=True, params={"self": "obj:RefsAbs16", "base": "opaque"}, returns="opaque", raises={ANY: None})
+contract(prop=["C16"], file="<abstract>", func="RefsAbs16.set_if_equals@abs", trusted=True,
+         params={"self": "obj:RefsAbs16", "name": "opaque", "old_ref": "opaque", "new_ref": "opaque", "message": "opaque"}, returns="bool", raises={ANY: None})
+contract(prop=["C16"], file="<abstract>", func="RefsAbs16.remove_if_equals@abs", trusted=True,
+         params={"self": "obj:RefsAbs16", "name": "opaque", "old_ref": "opaque", "message": "opaque"}, returns="bool", raises={ANY: None})
+_NM = "field(elem(_seq1, j), 0, 2)"
+_VL = "field(elem(_seq1, j), 1, 2)"
+contract(
+    prop=["C16"], file=R, func="RefsContainer.import_refs",
+    params={"self": "obj:RefsAbs16", "base": "bytes", "other": "opaque", "committer": "opaque", "timestamp": "opaque", "timezone": "opaque", "message": "opaque", "prune": "bool"},
+    returns="None", raises={ANY: None},
+    loops={1: dict(invariant=[f"all(({_NM} in to_delete) == ({_VL} is None) or any(jj > j and field(elem(_seq1, jj), 0, 2) is {_NM} for jj in range(0, _it1)) for j in range(0, _it1))"],
+                   types={"to_delete": "set[opaque]"}),
+           2: dict(invariant=["True"], types={"to_delete": "set[opaque]"})},
+    options={"callee_contracts": {"RefsAbs16.subkeys": ("<abstract>", "RefsAbs16.subkeys@abs"), "RefsAbs16.set_if_equals": ("<abstract>", "RefsAbs16.set_if_equals@abs"),
+                                  "RefsAbs16.remove_if_equals": ("<abstract>", "RefsAbs16.remove_if_equals@abs")}},
+)
